@@ -657,6 +657,17 @@ def t_explore(rec, seed, tier, cls, file_index, first, encoding="utf-8"):
             if apply_ops(rec, hist, soft=True):
                 nt += 1
             n += 1
+    # second pass, bound to a file with autosave on: every mutating step -- including the silent upgrade of a deprecated hash by
+    # check_password() -- must already be on disk (operations on one user: store a deprecated-scheme hash, check, set, delete, reload)
+    if first < 5:
+        ops2 = [["set_hash", 1, 0, 1, False], ["check", 1, 0, 1, False], ["set_password", 1, 0, 2, False], ["delete", 1, 0, False], ["reload"]]
+        for ln in range(1, 5):
+            for seq in itertools.product(range(5), repeat=ln - 1):
+                hist = {"cls": cls, "initial": initial, "initial_label": files[file_index][2], "autosave": True, "bound": True, "encoding": encoding,
+                        "return_unicode": True, "ctx": "custom", "default_realm": False, "ops": [ops2[first]] + [ops2[k] for k in seq]}
+                if apply_ops(rec, hist, soft=True):
+                    nt += 1
+                n += 1
     rec.ev(n)
     rec.nt_bulk(nt)
     rec.count(f"explore:{cls}:{files[file_index][2]}", n)
